@@ -248,6 +248,9 @@ func handleInsertValues(p *InsertPlan) error {
 				return fmt.Errorf("find table index error: %v", err)
 			}
 			p.result.Inter([]int{routeIdx})
+		default:
+			// a value the proxy does not evaluate (signed number, expression, function call) cannot be routed
+			return fmt.Errorf("sharding value must be a literal")
 		}
 		p.rewriteStmts = append(p.rewriteStmts, p.stmt)
 		return nil
@@ -268,6 +271,9 @@ func handleInsertValues(p *InsertPlan) error {
 				return fmt.Errorf("sharding value cannot be null")
 			}
 			routeIdx, err := p.tableRules[p.table].FindTableIndex(v)
+			if err != nil {
+				return fmt.Errorf("find table index error: %v", err)
+			}
 			if newStmt, ok := newStmtMap[routeIdx]; ok {
 				newStmt.Lists = append(newStmt.Lists, valueList)
 			} else {
@@ -277,9 +283,10 @@ func handleInsertValues(p *InsertPlan) error {
 				p.rewriteStmts = append(p.rewriteStmts, &newStmt)
 				newStmtMap[routeIdx] = &newStmt
 			}
-			if err != nil {
-				return fmt.Errorf("find table index error: %v", err)
-			}
+		default:
+			// a row whose sharding value the proxy does not evaluate (signed number, expression,
+			// function call) was silently left out of every sub-table: refuse the statement instead
+			return fmt.Errorf("sharding value must be a literal")
 		}
 	}
 
